@@ -81,7 +81,7 @@ var Ops = map[string]Info{
 	"rplacd": {Destroy, 2, true}, "nreverse": {Destroy, 1, true}, "sort": {Destroy, 1, true}, "stable-sort": {Destroy, 1, true},
 	"delete": {Destroy, 1, true}, "delete-if": {Destroy, 1, true}, "delete-duplicates": {Destroy, 1, true},
 	"nconc": {Extending, 2, true}, "add": {Extending, 1, true}, "add2": {Extending, 1, true},
-	// nconc whose first argument is the empty end of another list, (nconc (nthcdr <length of a> a) b): the result is b,
+	// nconc whose first argument is the empty end of another list, (nconc (cdr (last a)) b): the result is b,
 	// a is not touched (the empty end is a slice into a's storage, with whatever room that storage has left)
 	"nconc-end": {Extending, 2, true},
 }
